@@ -149,8 +149,87 @@ def do_fs(op, a):
         return out(lambda: t_bool(WriteToPaths(a[0] or None).update(a[1], data=OrderedDict((k, v) for k, v in a[2]))))
     if op == 'w_set':
         return out(lambda: t_bool(WriteToPaths(a[0] or None).set(a[1], a[2], a[3])))
+    if op == 'sidecar_of':
+        x = Sid(a[1])
+        return str(conf.get_data_json_path(x.path(a[0] or None)))
+    if op == 'corrupt_sidecar':
+        x = Sid(a[1])
+        dp = conf.get_data_json_path(x.path(a[0] or None))
+        if dp.exists():
+            if dp.is_dir():
+                shutil.rmtree(dp)
+            else:
+                dp.unlink()
+        if a[2] == 'corrupt':
+            dp.write_text('{"a": "1", ')
+        elif a[2] == 'empty':
+            dp.write_text('')
+        elif a[2] == 'dir':
+            dp.mkdir()
+        return 'ok'
+    if op == 'crash_write':
+        # WriteToPaths.update with a simulated process death at a chosen point of its file-system effects
+        import pathlib, os as _os
+        cfg, sid, data, mode, n = a[0], a[1], OrderedDict((k, v) for k, v in a[2]), a[3], int(a[4])
+        class Crash(BaseException):
+            pass
+        orig_wt, orig_rep = pathlib.Path.write_text, _os.replace
+        state = {'writes': 0}
+        def wt(self, text, *aa, **kw):
+            state['writes'] += 1
+            if mode == 'before':
+                raise Crash()
+            if mode == 'partial':
+                with open(self, 'w') as f:
+                    f.write(text[:min(n, max(len(text) - 1, 0))])
+                raise Crash()
+            return orig_wt(self, text, *aa, **kw)
+        def rep(src, dst, *aa, **kw):
+            if mode == 'before_replace':
+                raise Crash()
+            r = orig_rep(src, dst, *aa, **kw)
+            if mode == 'after_replace':
+                raise Crash()
+            return r
+        pathlib.Path.write_text = wt
+        _os.replace = rep
+        try:
+            try:
+                WriteToPaths(cfg or None).update(sid, data=data)
+                res = ['completed']
+            except Crash:
+                res = ['crashed']
+            except Exception as e:
+                res = ['raise', exn_name(e)]
+        finally:
+            pathlib.Path.write_text = orig_wt
+            _os.replace = orig_rep
+        return res
     if op == 'get_data_paths':
         return with_sid(a[1], lambda x: out(lambda: t_record(GetFromPaths(a[0] or None).get_data(x, attributes=list(a[2]) or None, sid_encode=enc_fn(a[3])))))
+    if op == 'publish_chain':
+        def f():
+            w = WriteToPaths(a[0] or None)
+            x = Sid(a[1])
+            res = []
+            for _ in range(int(a[2])):
+                n = x.get_new('version')
+                res.append(str(n))
+                if not n:
+                    break
+                w.create(n)
+            return res
+        return out(f)
+    if op == 'get_and_find':
+        def f():
+            g = GetFromPaths(a[0] or None)
+            enc = enc_fn(a[3])
+            attrs = list(a[2]) or None
+            found = list(g.finder.find(a[1], as_sid=True))
+            records = list(g.get(a[1], attributes=attrs, sid_encode=enc))
+            singles = [g.get_data(x, attributes=attrs, sid_encode=enc) for x in found]
+            return [[[x.string, x.uri] for x in found], [t_record(r) for r in records], [t_record(r) for r in singles]]
+        return out(f)
     if op == 'get_paths':
         return out(lambda: [t_record(r) for r in GetFromPaths(a[0] or None).get(a[1], attributes=list(a[2]) or None, sid_encode=enc_fn(a[3]))])
     if op == 'get_all':
